@@ -25,6 +25,7 @@ CALLS = [
     ('as_flj',   'athlon', "athlib.athlon_score('F', 'LJ', 6.0)"),
     ('as_age',   'athlon', "athlib.athlon_score('M', '100', 12.5, 50)"),
     ('as_unk',   'athlon', "athlib.athlon_score('X', '100', 10.5)"),
+    ('as_esaa',  'athlon', "athlib.athlon_score('M', '800', 130.0, esaa=True)"),      # the one row with an option of its own
     ('ap_m100',  'athlon', "athlib.athlon_performance_needed('M', '100', 975)"),
     ('ap_fhj',   'athlon', "athlib.athlon_performance_needed('F', 'HJ', 900)"),
     ('hs_m100',  'hungarian', "athlib.hungarian_score('M', 'OUT', '100', 10.5)"),
@@ -47,6 +48,8 @@ CALLS = [
     ('wb_f7k',   'wma', "athlib.wma_world_best('f', '7K')"),
     ('gr_m5k',   'wma', "athlib.wma_age_grade('m', 50, '5K', '16:23')"),
     ('gr_f7k',   'wma', "athlib.wma_age_grade('f', 44, '7K', '30:00')"),
+    ('gr_fhj',   'wma', "athlib.wma_age_grade('f', 71, 'HJ', '1.20')"),               # a field event: graded mark / standard, not standard / time
+    ('wb_mlj',   'wma', "athlib.wma_world_best('m', 'LJ')"),
     ('af15_m100', 'wma15', "athlib.wma_age_factor('M', 50, '100', year=2015)"),
     ('af15_f5k',  'wma15', "athlib.wma_age_factor('F', 62, '5K', year=2015)"),
     ('gr15_m5k',  'wma15', "athlib.wma_age_grade('m', 50, '5K', '16:23', year=2015)"),
@@ -81,11 +84,11 @@ CACHE_VARIANTS = ['first', 'c19', 'c20', 'c19+first', 'c18+all', 'warm']
 
 # pairs that are always run (both tiers); the rest of the in-group pairs is sampled (quick) / all (thorough)
 CORE_PAIRS = [
-    ('as_m100', 'as_flj'), ('as_m100', 'as_m100'), ('as_flj', 'ap_m100'), ('ap_m100', 'ap_fhj'), ('as_age', 'as_unk'),
+    ('as_m100', 'as_flj'), ('as_m100', 'as_m100'), ('as_flj', 'ap_m100'), ('ap_m100', 'ap_fhj'), ('as_age', 'as_unk'), ('as_m100', 'as_esaa'),
     ('hs_m100', 'hs_flj'), ('hs_m100', 'hs_m100'), ('hs_last', 'hs_unk'),
     ('sh_slj', 'sh_100'), ('sh_slj', 'sh_unk'), ('sh_slj_in', 'sh_slj_in'), ('sh_100_in', 'sh_100_in'), ('sh_shj', 'sh_shj'), ('sh_shj', 'sh_slj_in'),
     ('af_m100', 'af_f5k'), ('af_m100', 'af_m100'), ('af_m7k', 'af_fhj'), ('af_m52h', 'af_m70q'), ('af_m52h', 'af_m100'), ('wb_m5k', 'wb_f7k'), ('wb_f7k', 'af_m7k'),
-    ('gr_m5k', 'gr_f7k'), ('gr_m5k', 'af_f5k'),
+    ('gr_m5k', 'gr_f7k'), ('gr_m5k', 'af_f5k'), ('gr_m5k', 'gr_fhj'), ('gr_m5k', 'wb_mlj'),
     ('af15_m100', 'af15_f5k'), ('gr15_m5k', 'af15_f5k'),
     ('aaf_m60h', 'aaf_flj'), ('aaf_m60h', 'aaf_m60h'), ('aag_m60h', 'aaf_flj'), ('aaf_young', 'aag_bad'),
     ('sv_meta', 'sv_perf'), ('sv_perf', 'sv_meta'), ('sv_meta', 'sv_meta'), ('sv_race4', 'vs_ath'), ('vs_ath', 'vs_perf'),
